@@ -222,6 +222,13 @@ func genC17(t *rapid.T) (CaseC17, map[string]bool) {
 	stations := []string{"A27", "L03", "R1S", "127", "G0N", "abc"}
 	elevators := []string{"123", "7", "12X", ""}
 	nSt := rapid.IntRange(0, 4).Draw(t, "nStations")
+	if rapid.IntRange(0, 4).Draw(t, "caseTwins") == 0 {
+		// stations whose ids differ in letter case only are different stations
+		stations = []string{"A27", "a27", "abc", "ABC", "Abc", "R1S"}
+		elevators = []string{"123", "7"}
+		nSt = max(nSt, 2)
+		feats["stations-differing-in-case-only"] = true
+	}
 	if rapid.IntRange(0, 24).Draw(t, "sizeClass") == 0 {
 		nSt = rapid.SampledFrom([]int{17, 33, 70, 130}).Draw(t, "manyStations")
 		stations = nil
